@@ -18,6 +18,7 @@ theorem unmodelled_count : Carried.unmodelled.length = 9 := by decide +kernel
 /-- operations whose equation model = spec is proved below (the others are compared by the correspondence run only) -/
 def Proved : Op → Bool
   | .svAt _ | .svFront | .svBack _ => true
+  | .svPush _ _ | .svEmplaceBack _ _ | .svPop _ | .svClear _ => true
   | .ivFront _ | .ivBack _ | .ivAt _ _ | .ivEmplaceBack _ | .ivPush _ _ | .ivPop => true
   | .vwAt _ | .vwFront | .vwBack | .vwRemovePrefix _ | .vwRemoveSuffix _ | .vwCopy _ _ | .vwSubstr _ _ => true
   | .spAt _ | .spFront | .spBack | .spFirst _ | .spLast _ | .spSubspan _ _ => true
@@ -28,11 +29,13 @@ def Proved : Op → Bool
   | _ => false
 
 /-- well-formedness of (configuration, object, operation): the class invariant `size ≤ capacity`, `size_t` arguments,
-    an engaged expected/variant holds exactly one object, the one-member chrono classes have room for their member,
+    the storage base of a static_vector matches its capacity, an engaged expected/variant holds exactly one object, the one-member chrono classes have room for their member,
     and `array::operator[]` is only claimed where its check is compiled in (SAFE) or the index is valid. -/
 def WF (cfg : Cfg) (s : St) : Op → Prop
   | .svAt i => i < U64
   | .svBack _ => s.size < U64
+  | .svPush st _ | .svEmplaceBack st _ => StorOk st s ∧ s.cap < U64
+  | .svPop st | .svClear st => StorOk st s
   | .arAt _ i => cfg.safe = true ∨ i < s.size
   | .expDeref _ | .expError _ | .varIdx _ _ | .varGet _ _ => s.size = 1
   | .dayCtor _ | .monthCtor _ => 1 ≤ s.cap
@@ -47,6 +50,10 @@ theorem run_eq_expect (op : Op) (cfg : Cfg) (s : St) (hp : Proved op = true) (h 
   case svAt i => exact svAt_eq i cfg s h
   case svFront => exact svFront_eq cfg s
   case svBack k => exact svBack_eq k cfg s h
+  case svPush st v => exact svPush_eq st v cfg s h.1 h.2
+  case svEmplaceBack st v => exact svEmplaceBack_eq st v cfg s h.1 h.2
+  case svPop st => exact svPop_eq st cfg s h
+  case svClear st => exact svClear_eq st cfg s h
   case ivFront k => exact ivFront_eq k cfg s
   case ivBack k => exact ivBack_eq k cfg s
   case ivAt k i => exact ivAt_eq k i cfg s
